@@ -288,6 +288,25 @@ func (s *listSubj[T]) check(o *Oracle) {
 	if len(o.Active) == 0 {
 		return // C18 write phases: no observer may run on the container (it would warm lazily built state)
 	}
+	if derive(o.cur.ID, 91, 2) == 1 && o.On("C03") {
+		// the order of the observers varies: every other step a few lookups come before Values(), so that a
+		// structure one observer refreshes and another one uses is met stale
+		io := s.l.(indexOfer[T])
+		for j := 0; j < 3; j++ {
+			v := s.d.At(derive(o.cur.ID, 92+j, len(s.d.Tab)))
+			if got, want := io.IndexOf(v), slices.Index(s.m, v); got != want {
+				o.Fail("C03", "indexof", "after %s (asked before Values()): IndexOf(%s)=%d, want %d", o.cur, s.d.Str(v), got, want)
+			}
+			if got, want := s.l.Contains(v), slices.Contains(s.m, v); got != want {
+				o.Fail("C03", "contains", "after %s (asked before Values()): Contains(%s)=%v, want %v", o.cur, s.d.Str(v), got, want)
+			}
+			i := derive(o.cur.ID, 95+j, len(s.m)+1)
+			gv, ok := s.l.Get(i)
+			if wok := i < len(s.m); ok != wok || (ok && !sameElem(s.d, gv, s.m[i])) {
+				o.Fail("C03", "get", "after %s (asked before Values()): Get(%d)=(%s,%v), model %s", o.cur, i, s.d.Str(gv), ok, joinS(s.m, s.d.Str))
+			}
+		}
+	}
 	vals := s.l.Values()
 	if o.On("C03") || o.On("C16") {
 		tag := "C03"
@@ -338,10 +357,15 @@ func (s *listSubj[T]) check(o *Oracle) {
 		}
 		// a derived multi-argument query
 		n := derive(o.cur.ID, 1, 6)
+		others := 4 // one argument in four is an arbitrary table element
+		if derive(o.cur.ID, 2, 6) == 0 {
+			n = 30 + derive(o.cur.ID, 3, 20) // a long argument list, nearly all members
+			others = 24
+		}
 		q := make([]T, n)
 		want := true
 		for i := range q {
-			if len(s.m) > 0 && derive(o.cur.ID, 20+i, 4) > 0 {
+			if len(s.m) > 0 && derive(o.cur.ID, 20+i, others) > 0 {
 				q[i] = s.m[derive(o.cur.ID, 30+i, len(s.m))] // members, often repeated, often more of them than the list is long
 			} else {
 				q[i] = s.d.At(derive(o.cur.ID, 10+i, len(s.d.Tab)))
